@@ -1,7 +1,7 @@
 import OrbitModel.Generated.GenWalk
 /-!
 # Regenerated Go fragment = hand-written model (tie 2): the replicator looks at EVERY hash a fetched
-entry names (`Model/Replicator.lean`, `fetchOk`: `(net h).links.foldl (enqueue ctx)`)
+entry names (`Model/Replicator.lean`, `fetched`: `(net h).links.foldl (enqueue ctx)`)
 -/
 namespace Orbit
 
